@@ -30,7 +30,7 @@ from fractions import Fraction
 
 from ..cert import DM, chol_factor, frac_json, repair_povm
 from ..common import CorrespondenceBroken
-from ..exact import Pure, call_rng, describe, present_list, vary_ensemble
+from ..exact import Pure, call_rng, describe, present_list, strict_fp_call, vary_ensemble
 from ..pool import Result, TaskTimeout, run_pool, worker_driver
 from .. import qgen
 
@@ -47,7 +47,13 @@ RULE = ("ensembles (2..5 states, dimension 2..4, real/complex integer amplitudes
         "embedding: the first 40 random instances and every third family instance x the four programs x (one random interior point, the repaired optimal point [min-error: exactly "
         "Hermitian inputs; unambiguous: vector inputs with positive priors]) with 1-3 negative controls each, non-trivial = point certified feasible by the Lean checker; points are complex "
         "exactly when some state is; post: 4 ensemble sizes x 16 values (0, +-1e-9, around +-1e-8, 1e-7, 2e-3, 0.25, 1, random), values within 2^-30 relative of the threshold 1e-8 are not generated; "
-        "families: trine and PBR n = 1, 2, 3 at the threshold angle, pi/2 and random angles")
+        "families: trine and PBR n = 1, 2, 3 at the threshold angle, pi/2 and random angles; "
+        "strict-fp stream: to_density_matrix (1-D / column / row vectors, pure and mixed density matrices, basis and zero vectors, int / real / complex), trine(), "
+        "pusey_barrett_rudolph(n, theta) at theta = 0, the threshold angle, pi/2, pi, 2 pi and seeded angles, and is_antidistinguishable / common_quantum_overlap on trine, BB84, "
+        "identical, orthogonal and seeded ensembles are called once in the default state and once with NumPy's error state set to raise for invalid / divide / overflow "
+        "(harness.exact.strict_fp_call): same outcome (exact equality; the two solver-backed functions: same verdict / value within 2e-5); "
+        "same-object stream: state_exclusion (min-error primal and dual), is_antidistinguishable and common_quantum_overlap on a list that holds ONE array object in two slots "
+        "against the same list with an equal copy in the second slot (corpus + seeded ensembles from ctx.rng.spawn): same value within 1e-7 / same verdict / same exception class")
 ASSUMPTIONS = [
     "toqito computes with the float inputs it is given; the instance certified is their exact dyadic image (difference <= 1e-15 relative); a state vector v denotes the exact operator v v^H",
     "tolerance 2e-5 on CVXOPT-solved values (declared in DESIGN.md 4.4), 1e-3 for other solvers; 1e-4 on the POVM residuals of returned operators",
@@ -1298,6 +1304,142 @@ def work_family(task, res: Result):
                                    f"{[[float(y) for y in v] for v in model]} (order of the states, of the tensor factors, or a sign)")
 
 
+def _outcome(fn, *a, **kw):
+    try:
+        return "ok", fn(*a, **kw)
+    except Exception as e:  # noqa: BLE001
+        return "raise", f"{type(e).__name__}: {str(e)[:200]}"
+
+
+def _eq_value(a, b, tol):
+    """arrays / lists of arrays / scalars / booleans: equal exactly, or (tol > 0) within tol"""
+    if isinstance(a, (list, tuple)) or isinstance(b, (list, tuple)):
+        return isinstance(a, (list, tuple)) and isinstance(b, (list, tuple)) and len(a) == len(b) and all(_eq_value(x, y, tol) for x, y in zip(a, b))
+    a, b = np.asarray(a), np.asarray(b)
+    if a.shape != b.shape or (a.dtype.kind == "b") != (b.dtype.kind == "b"):
+        return False
+    if a.dtype.kind == "b":
+        return bool(np.array_equal(a, b))
+    if np.array_equal(a, b):
+        return True
+    return bool(tol > 0 and a.size and np.all(np.isfinite(a)) and np.all(np.isfinite(b)) and np.max(np.abs(a - b)) <= tol)
+
+
+def _strict_same(res, name, make, desc, tol=0.0):
+    """make() -> (fn, args, kwargs) on fresh copies; default state vs strict_fp_call"""
+    fn, a, kw = make()
+    st0, v0 = _outcome(_limited, fn, *a, **kw)
+    fn, a, kw = make()
+    st1, v1 = strict_fp_call(_limited, fn, *a, **kw)
+    if st1 == "raise" and v1.startswith(("CallTimeout", "TaskTimeout")):
+        res.count("strict-fp/call-timeout")
+        return
+    res.count(f"strict-fp/{name}")
+    info = {"function": name, "args": desc, "stream": "strict-fp"}
+    if st0 == "ok" and st1 != "ok":
+        res.violation(f"{name}: value depends on NumPy's floating-point error state: returns {str(v0)[:60]!r} in the default state, raises {v1} under np.seterr(invalid/divide/over='raise')",
+                      dict(info, impl_default_state=repr(v0)[:300], impl_strict_state=v1))
+    elif st0 != st1:
+        res.violation(f"{name}: outcome depends on NumPy's floating-point error state: {v0} in the default state, returns under np.seterr(invalid/divide/over='raise')",
+                      dict(info, impl_default_state=v0, impl_strict_state=repr(v1)[:300]))
+    elif st0 == "ok" and not _eq_value(v0, v1, tol):
+        res.violation(f"{name}: value depends on NumPy's floating-point error state: {str(v0)[:60]!r} in the default state, {str(v1)[:60]!r} under np.seterr(invalid/divide/over='raise')",
+                      dict(info, impl_default_state=repr(v0)[:300], impl_strict_state=repr(v1)[:300]))
+    elif st0 == "raise" and v0.split(":")[0] != v1.split(":")[0]:
+        res.violation(f"{name}: exception depends on NumPy's floating-point error state: {v0} in the default state, {v1} under np.seterr(invalid/divide/over='raise')",
+                      dict(info, impl_default_state=v0, impl_strict_state=v1))
+
+
+def work_strict(task, res: Result):
+    """strict-fp and same-object streams (see RULE).  task = (kind, payload)"""
+    from toqito.matrix_ops import to_density_matrix
+    from toqito.state_opt import state_exclusion
+    from toqito.state_props import common_quantum_overlap, is_antidistinguishable
+    from toqito.states import pusey_barrett_rudolph, trine
+    warnings.filterwarnings("ignore")
+    try:
+        _work_strict(task, res, to_density_matrix, state_exclusion, common_quantum_overlap, is_antidistinguishable, pusey_barrett_rudolph, trine)
+    except CallTimeout:
+        res.count("strict-fp/call-timeout")
+
+
+def _work_strict(task, res, to_density_matrix, state_exclusion, common_quantum_overlap, is_antidistinguishable, pusey_barrett_rudolph, trine):
+    kind, payload = task
+    if kind == "to_dm":
+        states = [np.asarray(s) for s in payload]
+        desc = {"fn": "strict", "kind": kind, "states": states}
+        res.case(desc, True, "strict-fp/to_density_matrix")
+        for s in states:
+            forms = [s]
+            if s.ndim == 1 or (s.ndim == 2 and 1 in s.shape):
+                v = s.reshape(-1)
+                forms = [v, v.reshape(-1, 1), v.reshape(1, -1)]
+            for f in forms:
+                _strict_same(res, "to_density_matrix", lambda f=f: (to_density_matrix, (f.copy(),), {}), dict(desc, shape=list(f.shape)))
+    elif kind == "family":
+        name, n, theta = payload
+        desc = {"fn": "strict", "kind": kind, "name": name, "n": n, "theta": float(theta)}
+        res.case(desc, True, f"strict-fp/{name}")
+        if name == "trine":
+            _strict_same(res, "trine", lambda: (trine, (), {}), desc)
+        else:
+            _strict_same(res, "pusey_barrett_rudolph", lambda: (pusey_barrett_rudolph, (n, theta), {}), desc)
+    elif kind == "anti":
+        states = [np.asarray(s) for s in payload]
+        desc = {"fn": "strict", "kind": kind, "states": states}
+        res.case(desc, True, "strict-fp/anti")
+        _strict_same(res, "is_antidistinguishable", lambda: (is_antidistinguishable, ([s.copy() for s in states],), {}), desc)
+        _strict_same(res, "common_quantum_overlap", lambda: (common_quantum_overlap, ([s.copy() for s in states],), {}), desc, tol=TAU["cvxopt"])
+    elif kind == "same-object":
+        states, i, j, fname = payload
+        states = [np.asarray(s) for s in states]
+        desc = {"fn": "strict", "kind": kind, "states": states, "i": i, "j": j, "function": fname}
+        res.case(desc, True, f"same-object/{fname}")
+        shared = [s.copy() for s in states]
+        shared[j] = shared[i]                      # ONE object in slots i and j
+        copies = [s.copy() for s in states]
+        copies[j] = copies[i].copy()               # equal values, distinct objects
+        call = {"state_exclusion/primal": lambda L: float(np.real(state_exclusion(L, primal_dual="primal")[0])),
+                "state_exclusion/dual": lambda L: float(np.real(state_exclusion(L, primal_dual="dual")[0])),
+                "is_antidistinguishable": lambda L: bool(is_antidistinguishable(L)),
+                "common_quantum_overlap": lambda L: float(np.real(common_quantum_overlap(L)))}[fname]
+        o_s = _outcome(_limited, call, shared)
+        o_c = _outcome(_limited, call, copies)
+        same = o_s[0] == o_c[0] and (_eq_value(o_s[1], o_c[1], 1e-7) if o_s[0] == "ok" else o_s[1].split(":")[0] == o_c[1].split(":")[0])
+        if not same:
+            res.violation(f"{fname.split('/')[0]}: a list holding the same array object in slots {i} and {j} gives {str(o_s[1])[:80]!r}, the same list with an equal copy in slot {j} gives {str(o_c[1])[:80]!r}",
+                          {"function": fname.split("/")[0], "args": desc, "stream": "same-object", "impl_same_object": repr(o_s[1])[:300], "impl_copies": repr(o_c[1])[:300]})
+    else:
+        raise ValueError(kind)
+
+
+def strict_tasks(srng, quick):
+    from toqito.states import trine
+    e0, e1 = np.array([1.0, 0.0]), np.array([0.0, 1.0])
+    plus, minus = (e0 + e1) / np.sqrt(2), (e0 - e1) / np.sqrt(2)
+    tri = [np.asarray(v) for v in trine()]
+    mixed = np.diag([0.5, 0.5, 0.0])
+    tasks = [("to_dm", [e0, np.zeros(3), np.array([1, 0, 0]), plus, np.array([1j, 0, 1]) / np.sqrt(2), np.outer(plus, plus), mixed, np.eye(2, dtype=complex) / 2, np.array([[1]]), np.array([3.0])])]
+    tasks += [("family", ("trine", 0, 0.0))]
+    for n in (1, 2, 3):
+        for th in (0.0, 2 * np.arctan(2 ** (1 / n) - 1), np.pi / 2, np.pi, 2 * np.pi):
+            tasks.append(("family", ("pbr", n, float(th))))
+    for st in (tri, [e0, e1, plus, minus], [e0, e0.copy()], [e0, e1], [plus.reshape(-1, 1), plus.reshape(-1, 1), e1.reshape(-1, 1)], [np.outer(e0, e0), np.outer(plus, plus), np.eye(2) / 2]):
+        tasks.append(("anti", st))
+    for st, fname in ((tri, "state_exclusion/dual"), ([e0, e1, plus], "state_exclusion/primal"), ([e0, e1, plus], "is_antidistinguishable"), ([np.outer(e0, e0), np.eye(2) / 2, np.outer(plus, plus)], "common_quantum_overlap")):
+        tasks.append(("same-object", (st, 0, 2 if fname.endswith("dual") else 1, fname)))
+    fnames = ["state_exclusion/primal", "state_exclusion/dual", "is_antidistinguishable", "common_quantum_overlap"]
+    for t in range(4 if quick else 24):
+        inst = gen_instance(srng)
+        tasks.append(("to_dm", inst["states"]))
+        tasks.append(("family", ("pbr", int(srng.integers(1, 4)), float(srng.uniform(0.0, np.pi)))))
+        if t % 2 == 0:
+            tasks.append(("anti", inst["states"]))
+        i, j = (int(x) for x in srng.choice(inst["k"], size=2, replace=False))
+        tasks.append(("same-object", (inst["states"], i, j, fnames[t % 4])))
+    return tasks
+
+
 # ------------------------------------------------------------------------------------------------
 
 
@@ -1371,6 +1513,8 @@ def run(ctx, model_ok=True):
     run_pool(ctx, work_post, [([np.eye(n_)[:, i % n_] for i in range(m_)], post_vals) for (n_, m_) in ((2, 2), (2, 3), (3, 4), (4, 5))])
     fam_tasks = [("trine", 0, 0.0)] + [("pbr", n_, float(th)) for n_ in (1, 2, 3) for th in [2 * np.arctan(2 ** (1 / n_) - 1), np.pi / 2] + [float(x) for x in rng.uniform(0.05, 1.5, size=(2 if quick else 12))]]
     run_pool(ctx, work_family, fam_tasks)
+    # ---- strict-fp / same-object streams: seeded from a child generator, so the streams above do not shift
+    run_pool(ctx, work_strict, strict_tasks(rng.spawn(1)[0], quick))
     ctx.extra["embedding"] = {"tolerance_objective": EMB_TOL, "tolerance_feasible": 1e-9, "negative_control_margin": EMB_BAD}
     ctx.extra["tolerances"] = dict(TAU, other=TAU_OTHER, povm=1e-4, zero_hi=ZERO_HI, pos_lo=POS_LO)
     ctx.extra["certified_interval_width_bound"] = WIDTH_OK
@@ -1384,7 +1528,7 @@ def replay(ctx, rec):
             return complex(e["re"], e["im"]) if isinstance(e, dict) else e
         return np.array([[el(e) for e in row] if isinstance(row, list) else el(row) for row in s])
 
-    if a.get("fn") in ("post", "family"):
+    if a.get("fn") in ("post", "family", "strict"):
         inst = None
     else:
         inst = {"d": a["d"], "k": a["k"], "cplx": a["cplx"], "form": a["form"], "kind": a.get("kind", "random"), "probs": a["probs"],
@@ -1392,7 +1536,11 @@ def replay(ctx, rec):
                 "pres": a.get("pres"), "real_idx": a.get("real_idx") or []}
     res = Result()
     fn = rec.get("function")
-    if a.get("fn") == "post":
+    if a.get("fn") == "strict":
+        k_ = a["kind"]
+        sts = [arr(x) for x in a["states"]] if "states" in a else None
+        work_strict((k_, sts if k_ in ("to_dm", "anti") else (a["name"], a["n"], a["theta"]) if k_ == "family" else (sts, a["i"], a["j"], a["function"])), res)
+    elif a.get("fn") == "post":
         work_post(([np.eye(a["n"])[:, i % a["n"]] for i in range(a["n"])], [a["v"]]), res)
     elif a.get("fn") == "family":
         work_family((("trine", 0, 0.0) if a["name"] == "trine" else ("pbr", a["n"], a["theta"])), res)
